@@ -7,3 +7,46 @@ Print Assumptions C15_fold_total.
 (* the set a caseless character or range compiles to is used through an exact membership test *)
 Theorem C15_set_membership_exact : stmt_C16_sort_optimize. Proof. exact C16_sort_optimize_proof. Qed.
 Print Assumptions C15_set_membership_exact.
+
+From Lug Require Import Ucd.CaselessSpec Ucd.CaselessProofs Ucd.CaselessWitness Proofs.CaselessMachine Proofs.CaselessMachineWitness.
+
+(* caseless ranges: what the compiled set contains, for every table *)
+Theorem C15_range_members : stmt_C15_range_members. Proof. exact C15_range_members_proof. Qed.
+Print Assumptions C15_range_members.
+Theorem C15_range_reversed : stmt_C15_range_reversed. Proof. exact C15_range_reversed_proof. Qed.
+Print Assumptions C15_range_reversed.
+Theorem C15_range_index_only_if_lookup_fails : stmt_C15_range_index_only_if_lookup_fails. Proof. exact C15_range_index_only_if_lookup_fails_proof. Qed.
+Print Assumptions C15_range_index_only_if_lookup_fails.
+Theorem C15_range_total_on_shipped_table : stmt_C15_range_total_on_shipped_table. Proof. exact C15_range_total_on_shipped_table_proof. Qed.
+Print Assumptions C15_range_total_on_shipped_table.
+(* caseless single letters *)
+Theorem C15_letter_members : stmt_C15_letter_members. Proof. exact C15_letter_members_proof. Qed.
+Print Assumptions C15_letter_members.
+(* the property's iff for ranges: under two explicit table hypotheses; necessity of the second; refutation on the shipped table *)
+Theorem C15_range_exact_partial : stmt_C15_range_exact_partial. Proof. exact C15_range_exact_partial_proof. Qed.
+Print Assumptions C15_range_exact_partial.
+Theorem C15_range_exact_needs_reachable : stmt_C15_range_exact_needs_reachable. Proof. exact C15_range_exact_needs_reachable_proof. Qed.
+Print Assumptions C15_range_exact_needs_reachable.
+Theorem C15_range_refuted : stmt_C15_range_refuted. Proof. exact C15_range_refuted_proof. Qed.
+Print Assumptions C15_range_refuted.
+Theorem C15_range_exact_refuted : stmt_C15_range_exact_refuted. Proof. exact C15_range_exact_refuted_proof. Qed.
+Print Assumptions C15_range_exact_refuted.
+Theorem C15_letter_refuted : stmt_C15_letter_refuted. Proof. exact C15_letter_refuted_proof. Qed.
+Print Assumptions C15_letter_refuted.
+(* caseless literals: the fold cache invariant, exactness under length-preserving folding, refutations *)
+Theorem C15_cache_sound_init : stmt_C15_cache_sound_init. Proof. exact C15_cache_sound_init_proof. Qed.
+Print Assumptions C15_cache_sound_init.
+Theorem C15_cache_sound_preserved : stmt_C15_cache_sound_preserved. Proof. exact C15_cache_sound_preserved_proof. Qed.
+Print Assumptions C15_cache_sound_preserved.
+Theorem C15_cache_sound_poll : stmt_C15_cache_sound_poll. Proof. exact C15_cache_sound_poll_proof. Qed.
+Print Assumptions C15_cache_sound_poll.
+Theorem C15_literal_partial : stmt_C15_literal_partial. Proof. exact C15_literal_partial_proof. Qed.
+Print Assumptions C15_literal_partial.
+Theorem C15_literal_accepts : stmt_C15_literal_accepts. Proof. exact C15_literal_accepts_proof. Qed.
+Print Assumptions C15_literal_accepts.
+Theorem C15_literal_refuted : stmt_C15_literal_refuted. Proof. exact C15_literal_refuted_proof. Qed.
+Print Assumptions C15_literal_refuted.
+Theorem C15_literal_not_general : stmt_C15_literal_not_general. Proof. exact C15_literal_not_general_proof. Qed.
+Print Assumptions C15_literal_not_general.
+Theorem C15_literal_cache_dependent : stmt_C15_literal_cache_dependent. Proof. exact C15_literal_cache_dependent_proof. Qed.
+Print Assumptions C15_literal_cache_dependent.
